@@ -232,8 +232,9 @@ def entry_property(pid):
             programs=len(stats['programs']), program_list=stats['programs'], functions_encoded=stats['functions'], modelled_calls=stats['modelled'],
             opaque_calls=stats['opaque'], exploration_wall_s=round(stats['wall_s'], 1),
             shared_exploration_reused=was_cached, exhaustive=False,
-            bounds="runtimes x (14 entry points + program family), <= max_steps scheduler steps, preemption bound per program, "
-                   "bounded(n) entry points with symbolic n in 0..3",
+            block_on_runtime=stats.get('block_on'),
+            bounds="runtimes x (14 entry points + 3 blocking-client programs under runtime::block_on + program family), "
+                   "<= max_steps scheduler steps, preemption bound per program, bounded(n) entry points with symbolic n in 0..3",
             note="few solver queries: the entry points are straight-line code; what is explored is schedules, the solver decides the capacity comparisons")
         out = dict(violations=vio, coverage=cov, assumptions=list(ENTRY_ASSUMPTIONS))
         if stats['unsupported']:
